@@ -195,6 +195,9 @@ def global_obligations(ctx, clause):
     g = ctx.flow
     o, n = globalstate.class_level_mutables(ctx, clause)
     obs += o
+    o2, n2 = globalstate.module_level_mutables(ctx, clause)
+    obs += o2
+    n += n2
     for m, name, users in globalstate.module_globals(ctx, clause):
         node = ("g", m.name, name)
         T = g.flows([node])
